@@ -119,8 +119,17 @@ func (impl *serviceImpl) Propose(ctx gorums.ServerCtx, proposal *hotstuffpb.Prop
 		impl.srv.logger.Warnf("Could not get replica ID: %v", err)
 		return
 	}
+	if proposal.GetBlock() == nil {
+		impl.srv.logger.Warnf("Dropping proposal without a block from replica %d", id)
+		return
+	}
 	if impl.srv.config.HasKauriTree() {
+		// the proposal was relayed down the tree; the proposer must still be a known replica
 		id = proposal.ProposerID()
+		if _, ok := impl.srv.config.ReplicaInfo(id); !ok {
+			impl.srv.logger.Warnf("Dropping proposal from unknown proposer %d", id)
+			return
+		}
 	}
 	proposal.Block.Proposer = uint32(id)
 	proposeMsg := hotstuffpb.ProposalFromProto(proposal)
@@ -177,6 +186,7 @@ func (impl *serviceImpl) Timeout(ctx gorums.ServerCtx, msg *hotstuffpb.TimeoutMs
 	id, err := impl.srv.config.PeerIDFromContext(ctx)
 	if err != nil {
 		impl.srv.logger.Warnf("Could not get replica ID: %v", err)
+		return
 	}
 	timeoutMsg := hotstuffpb.TimeoutMsgFromProto(msg)
 	timeoutMsg.ID = id
